@@ -26,15 +26,13 @@ func writeEvidence(prop, tier string, seed uint64, tc tierCfg, a *agg, buildS, e
 	}
 	var samples []any
 	for _, o := range a.samples {
-		var sc any
-		json.Unmarshal(o.Scenario, &sc)
+		sc := json.RawMessage(o.Scenario) // verbatim: seeds are 64-bit
 		samples = append(samples, map[string]any{"seed": o.Seed, "index": o.Index, "family": o.Family, "steps": o.Steps, "switches": o.Switches,
 			"sim_seconds": float64(o.SimNanos) / 1e9, "kernel_verdict": o.Kernel, "scenario": sc, "history": o.History, "extra": o.Extra})
 	}
 	if len(samples) == 0 {
 		for sig, o := range a.firstBySig {
-			var sc any
-			json.Unmarshal(o.Scenario, &sc)
+			sc := json.RawMessage(o.Scenario)
 			samples = append(samples, map[string]any{"seed": o.Seed, "signature": sig, "scenario": sc, "history": o.History})
 			if len(samples) >= 2 {
 				break
